@@ -109,6 +109,27 @@ impl Cfg {
         s
     }
 
+    /// The same configuration with the setters in the order the rcomp command line uses
+    /// (table type and prefer-shift flags first, `parser_algo` last). Only meaningful for LR,
+    /// where `parser_algo(LR)` is documented to change nothing.
+    pub fn settings_algo_last(&self) -> Settings {
+        let mut s = Settings::new();
+        if let Some(t) = self.table {
+            s = s.table_type(match t {
+                TT::Lalr => TableType::LALR,
+                TT::Pager => TableType::LALR_PAGER,
+                TT::Rn => TableType::LALR_RN,
+            });
+        }
+        if let Some(b) = self.prefer_shifts {
+            s = s.prefer_shifts(b);
+        }
+        if let Some(b) = self.pse {
+            s = s.prefer_shifts_over_empty(b);
+        }
+        s.parser_algo(ParserAlgo::LR)
+    }
+
     /// effective values as the documentation defines the defaults
     pub fn eff_longest(&self) -> bool {
         self.longest.unwrap_or(true)
